@@ -145,6 +145,9 @@ type (
 		// streams whose converter output was invalidated while a converter job was running: a
 		// conversion that was in flight at that moment stores output for the old data afterwards
 		invalidatedStreamsDuringConverterJob bitmask.LongBitmask
+		// converters detached from their last tag while a converter job was running: a conversion
+		// of that job that fails because of the reset is tried again and stores output afterwards
+		detachedConvertersDuringConverterJob map[string]struct{}
 
 		streamsToConvert         map[string]*bitmask.LongBitmask
 		pcapProcessorWebhookUrls []string
@@ -1648,6 +1651,8 @@ func (mgr *Manager) convertStreamJob(allConverters []*converters.CachedConverter
 			mgr.invalidateConverters(&changed)
 		}
 
+		detached := mgr.detachedConvertersDuringConverterJob
+		mgr.detachedConvertersDuringConverterJob = nil
 		for i, converter := range allConverters {
 			// The converter was removed while we were running.
 			// Discard the result.
@@ -1655,6 +1660,15 @@ func (mgr *Manager) convertStreamJob(allConverters []*converters.CachedConverter
 				if err := converter.Reset(); err != nil {
 					log.Printf("error while resetting converter %q after discarding results: %v", converter.Name(), err)
 				}
+				continue
+			}
+			// The converter was detached from its last tag while we were running and no tag
+			// uses it since: the detach dropped its output, drop what was stored afterwards too.
+			if _, ok := detached[converter.Name()]; ok && !mgr.converterAttached(converter) && converter.Statistics().CachedStreamCount != 0 {
+				if err := converter.Reset(); err != nil {
+					log.Printf("error while resetting converter %q after discarding results: %v", converter.Name(), err)
+				}
+				mgr.converterOutputDropped()
 				continue
 			}
 
@@ -2038,8 +2052,23 @@ func (mgr *Manager) detachConverterFromTag(tag *tag, tagName string, converter *
 			return err
 		}
 		mgr.converterOutputDropped()
+		if mgr.converterJobRunning {
+			if mgr.detachedConvertersDuringConverterJob == nil {
+				mgr.detachedConvertersDuringConverterJob = map[string]struct{}{}
+			}
+			mgr.detachedConvertersDuringConverterJob[converter.Name()] = struct{}{}
+		}
 	}
 	return nil
+}
+
+func (mgr *Manager) converterAttached(converter *converters.CachedConverter) bool {
+	for _, t := range mgr.tags {
+		if slices.Contains(t.converters, converter) {
+			return true
+		}
+	}
+	return false
 }
 
 // converterOutputDropped makes every tag that looks at payload pending again: a data filter
